@@ -170,7 +170,7 @@ def run_case(case, rep, record=True):
         else:
             doc = spell(src["doc"], case.get("spelling", 0))
             tmp = path = os.path.join(docs.tmpdir(), f"c17_{os.getpid()}.yaml")
-            docs.dump(doc, path, flow=src.get("flow"))
+            docs.dump(doc, path, flow=src.get("flow"), rotate=case.get("rotate", 0))
         try:
             try:
                 scn = nasim.load_scenario(path)
@@ -228,6 +228,7 @@ def _shard(shard, seed, tier, n_cases):
         "source": st.builds(lambda d, fl: {"kind": "doc", "doc": d, "flow": fl},
                             docs.documents(extras=False, deny_rich=True), st.sampled_from([None, False, True])),
         "spelling": st.integers(0, 2),
+        "rotate": st.sampled_from([0, 0, 3, 7, 11]),
         "ops": st.lists(engine.weighted([(3, near), (2, prog)]), min_size=8, max_size=30),
         "modes": st.just({}),
     })
